@@ -2,6 +2,7 @@ import Lean.Data.Json
 import NGF.Model.StatusPrep
 import NGF.Model.StatusJudge
 import NGF.Model.HandlerStatus
+import NGF.Model.PolicyAttach
 import NGF.Model.PipelineStatusTie
 import NGF.Model.Proto
 /-
@@ -196,6 +197,27 @@ def handlerDiffs (line : Json) : Except String (List String) :=
     | _ => pure ()
     pure out
 
+/-- `attachPolicyToService` against the real graph: an UpstreamSettingsPolicy whose targetRefs name `svcRefd` referenced Services
+has the ancestors `PolicyAttach.attachServices` gives (one entry for the winning Gateway, TargetNotFound when it is invalid) -/
+def policyAttachDiffs (line : Json) : Except String (List String) := do
+  let s ← line.getObjVal? "sum"
+  match optField s "gateway" with
+  | none => pure []
+  | some g =>
+    let gw : AncRef := ⟨gatewayGroup, "Gateway", ← reqStr g "ns", ← reqStr g "name"⟩
+    let valid ← reqBool g "valid"
+    let pols ← reqArr s "policies"
+    let ds ← pols.filterMapM fun p => do
+      if (← reqStr p "kind") != "UpstreamSettingsPolicy" then pure none else
+      let n := match optField p "svcRefd" with
+        | some v => (v.getNat?.toOption).getD 0
+        | none => 0
+      let real := (← pPolicy p).ancestors
+      let model := NGF.PolicyAttach.attachServices gw valid n []
+      if real == model then pure none
+      else pure (some s!"policy-ancestors:{← reqStr p "ns"}/{← reqStr p "name"}:svcRefd={n}:real={real.length}:model={model.length}")
+    pure ds
+
 def modelLine (line : String) : String :=
   match Json.parse line with
   | .error e => "bad-op " ++ e
@@ -205,7 +227,10 @@ def modelLine (line : String) : String :=
       match handlerDiffs j with
       | .error e => "bad-op h: " ++ e
       | .ok hd =>
-        let d := compare (optField j "h").isSome (prepare s) real ++ (if s.wf then [] else ["wf:summary-of-the-real-graph-violates-Summary.wf"]) ++ hd
+        let pd := match policyAttachDiffs j with
+          | .ok x => x
+          | .error e => ["policy-ancestors:undecodable:" ++ e]
+        let d := compare (optField j "h").isSome (prepare s) real ++ (if s.wf then [] else ["wf:summary-of-the-real-graph-violates-Summary.wf"]) ++ hd ++ pd
         if d.isEmpty then "ok" else "diff " ++ ";".intercalate d
     | .error e, _ => "bad-op sum: " ++ e
     | _, .error e => "bad-op st: " ++ e
@@ -276,7 +301,11 @@ def pInput (j : Json) : Except String Input := do
     | some v => v.getStr?
     | none => pure ""
   return { ctl := ← reqStr j "ctl", cls := ← reqStr j "cls", reloadErr := ← reqBool j "reloadErr", failKind := fk,
-           objs := ← pObjs j, conf := ← pConf j, st := ← pPrepared j, facts := ← pFacts j }
+           objs := ← pObjs j, conf := ← pConf j, st := ← pPrepared j, facts := ← pFacts j,
+           fresh := ← (← reqArr j "fresh").mapM fun g => do
+             let ls ← (← reqArr g "listeners").mapM fun l => do
+               pure (ListenerStatus.mk (← reqStr l "name") (← reqNat l "attached") (← pApiConds l "conds"))
+             pure (GatewayStatus.mk (← reqStr g "ns") (← reqStr g "name") (← pApiConds g "conds") ls) }
 
 def judgeLine (line : String) : String :=
   match Json.parse line with
